@@ -19,6 +19,7 @@ type UnitResult struct {
 	Pkg          string
 	Obls         []*Obligation
 	Assumes      []string
+	AssumeLabels map[int]string
 	Preamble     func() string
 	Err          string
 	Warnings     []string
@@ -186,7 +187,7 @@ func (x *Unit) resolveAnchors() {
 			if s.kind != kind {
 				continue
 			}
-			if (kind == "call" || kind == "assign") && !(s.text == text || strings.HasSuffix(s.text, "."+text)) {
+			if st, tt := strings.ReplaceAll(s.text, " ", ""), strings.ReplaceAll(text, " ", ""); (kind == "call" || kind == "assign") && !(st == tt || strings.HasSuffix(st, "."+tt)) {
 				continue
 			}
 			cnt++
@@ -236,12 +237,47 @@ func (x *Unit) runAction(st *State, a *AnchorAction) {
 	switch a.Kind {
 	case "assert":
 		c := x.specBool(st, a.Clause, nil)
-		x.oblige(st, "assert", a.Clause.Label, x.tagsOr(a.Clause.Tags), c, a.Clause.Src, node)
-		x.assume(st, c)
+		x.obligeBy(a.Clause.By, st, "assert", a.Clause.Label, x.tagsOr(a.Clause.Tags), c, a.Clause.Src, node)
+		x.assumeAs(st, a.Clause.Label, c)
 	case "assume":
 		c := x.specBool(st, a.Clause, nil)
 		x.assume(st, c)
 		x.assumedAt = append(x.assumedAt, fmt.Sprintf("%s: assume %s: %s", x.FU.Name, a.Clause.Label, a.Clause.Src))
+	case "use":
+		env := x.unitEnv(st, nil)
+		us := st
+		if a.Clause != nil {
+			us = x.withCond(st, env.boolOf(a.Clause.Expr))
+		}
+		x.useLemma(us, env, a.Expr, node)
+	case "exhibit":
+		// existential introduction with an explicit witness
+		env := x.unitEnv(st, nil)
+		w := env.eval(a.Expr)
+		q, qenv := env.topExists(a.Clause.Expr, 0)
+		if q == nil || len(q.Vars) != 1 || q.Vars[0].Name != a.Var {
+			x.fail(node, "exhibit: clause is not (a predicate defined as) `exists %s T :: body`", a.Var)
+		}
+		be := qenv.child()
+		be.names[a.Var] = w
+		x.obligeBy(a.Clause.By, st, "exhibit", a.Clause.Label, x.tagsOr(a.Clause.Tags), be.boolOf(q.Body), a.Clause.Src+"  [witness "+a.Var+" := "+a.Src+"]", node)
+		x.assumeAs(st, a.Clause.Label, env.boolOf(a.Clause.Expr))
+	case "obtain":
+		// existential elimination: prove (exists v :: body), then name a witness
+		env := x.unitEnv(st, nil)
+		so, gt := env.resolveSort(a.Index)
+		x.bvCtr++
+		bn := fmt.Sprintf("bv!%s%d", a.Var, x.bvCtr)
+		ne := env.child()
+		ne.names[a.Var] = TG(bn, so, gt)
+		body := ne.boolOf(a.Clause.Expr)
+		ex := T("(exists (("+bn+" "+so.Name+")) "+body.S+")", SBool)
+		x.obligeBy(a.Clause.By, st, "obtain", a.Clause.Label, x.tagsOr(a.Clause.Tags), ex, a.Clause.Src, node)
+		w := x.freshVal("wit:"+a.Var, so, gt)
+		x.lets[a.Var] = w
+		we := env.child()
+		we.names[a.Var] = w
+		x.assumeAs(st, a.Clause.Label, we.boolOf(a.Clause.Expr))
 	case "ghost":
 		if x.pass == 1 {
 			defer func() {
@@ -291,6 +327,7 @@ func (x *Unit) Verify() (res *UnitResult) {
 
 func (x *Unit) resetForSecondPass() {
 	x.assumes = nil
+	x.assumeLabels = nil
 	x.obls = nil
 	x.compAt = map[string]Term{}
 	x.epochCtr = 0
@@ -308,6 +345,7 @@ func (x *Unit) resetForSecondPass() {
 	x.inlineStack = nil
 	x.nameCtr = map[string]int{}
 	x.lets = map[string]Term{}
+	x.lastGhost = map[string]Term{}
 	x.seenStack, x.idxStack, x.rkStack = nil, nil, nil
 	x.callOrd = map[string]int{}
 	x.closureBind = map[types.Object]*ast.FuncLit{}
@@ -338,7 +376,7 @@ func (x *Unit) verifyOnce() (res *UnitResult) {
 			if ue, ok := r.(unsupportedErr); ok {
 				res.Err = fmt.Sprintf("%s (pass %d)", ue.msg, x.pass)
 				res.Obls = x.obls
-				res.Assumes = x.assumes
+				res.Assumes, res.AssumeLabels = x.assumes, x.assumeLabels
 				return
 			}
 			panic(r)
@@ -409,16 +447,16 @@ func (x *Unit) verifyOnce() (res *UnitResult) {
 				}
 				v := env.eval(e)
 				x.set(st, "gh:"+g.Name, v)
-			} else if so.Kind != KArray {
+			} else if literalZero(so) {
 				x.set(st, "gh:"+g.Name, x.U.Zero(so))
 			}
 		}
 		for _, r := range c.Requires {
 			x.clausePos[r] = x.FU.Body.Lbrace + 1
-			x.assume(st, x.specBool(st, r, nil))
+			x.assumeAs(st, r.Label, x.specBool(st, r, nil))
 		}
 		for _, r := range c.Monitor {
-			x.assume(st, x.specBool(st, r, nil))
+			x.assumeAs(st, r.Label, x.specBool(st, r, nil))
 			x.assumedAt = append(x.assumedAt, fmt.Sprintf("%s: type invariant %s assumed at entry (re-established at every exit of every method; fields are package-private)", x.FU.Name, r.Label))
 		}
 		x.assumeAxioms(st)
@@ -442,6 +480,9 @@ func (x *Unit) verifyOnce() (res *UnitResult) {
 	body := st.clone()
 	out := x.block(body, x.FU.Body.List)
 	if !out.dead() {
+		if x.pass == 2 {
+			x.monitorsAtReturn(out, "end", x.FU.Body)
+		}
 		fr.returns = append(fr.returns, out)
 	}
 	normal, panicking := x.finishFrame(fr)
@@ -457,9 +498,12 @@ func (x *Unit) verifyOnce() (res *UnitResult) {
 			if x.pass == 1 {
 				continue
 			}
+			if en.EachReturn {
+				continue // proved at every return statement (monitorsAtReturn)
+			}
 			env := x.unitEnv(normal, nil)
 			env.paramOld = true
-			x.oblige(normal, "typeinv", en.Label, x.tagsOr(en.Tags), env.boolOf(en.Expr), en.Src, x.FU.Body)
+			x.obligeBy(en.By, normal, "typeinv", en.Label, x.tagsOr(en.Tags), env.boolOf(en.Expr), en.Src, x.FU.Body)
 		}
 		for _, en := range c.Ensures {
 			env := x.unitEnv(normal, nil)
@@ -468,7 +512,7 @@ func (x *Unit) verifyOnce() (res *UnitResult) {
 				continue
 			}
 			cond := env.boolOf(en.Expr)
-			x.oblige(normal, "post", en.Label, en.Tags, cond, en.Src, x.FU.Body)
+			x.obligeBy(en.By, normal, "post", en.Label, en.Tags, cond, en.Src, x.FU.Body)
 		}
 		if len(c.Panics) > 0 || c.NoPanic {
 			for _, en := range c.Panics {
@@ -504,7 +548,7 @@ func (x *Unit) verifyOnce() (res *UnitResult) {
 	x.obls = append(x.obls, cov)
 	x.obls = append(x.obls, x.covers...)
 	res.Obls = x.obls
-	res.Assumes = x.assumes
+	res.Assumes, res.AssumeLabels = x.assumes, x.assumeLabels
 	res.Warnings = x.warnings
 	for a := range x.abstractions {
 		res.Abstractions = append(res.Abstractions, a)
@@ -529,7 +573,10 @@ func (res *UnitResult) Query(o *Obligation, seed int) string {
 	fmt.Fprintf(&b, "(set-option :random-seed %d)\n", seed)
 	b.WriteString("(set-logic ALL)\n")
 	b.WriteString(res.U.Preamble())
-	for _, a := range res.Assumes[:o.NAssume] {
+	for i, a := range res.Assumes[:o.NAssume] {
+		if !res.keepAssume(o, i) {
+			continue
+		}
 		b.WriteString("(assert ")
 		b.WriteString(a)
 		b.WriteString(")\n")
@@ -605,19 +652,180 @@ func VerifyLemma(p *Program, pkgPath string, lm *LemmaDecl) *UnitResult {
 	}
 	x.assumeAxioms(st)
 	for _, r := range lm.Requires {
-		x.assume(st, env0.boolOf(r.Expr))
+		x.assumeAs(st, r.Label, env0.boolOf(r.Expr))
+	}
+	if lm.Induct != "" {
+		for _, r := range lm.Requires {
+			if mentionsIdent(r.Expr, lm.Induct) {
+				x.fail(nil, "lemma %s: hypothesis %s mentions the induction variable %s (the induction step would be unsound)", lm.Name, r.Label, lm.Induct)
+			}
+		}
+	}
+	nHyp := len(x.assumes)
+	for _, u := range lm.Uses {
+		ue, err := ParseSpec(u)
+		if err != nil {
+			x.fail(nil, "%v", err)
+		}
+		x.useLemma(st, env0, ue, nil)
 	}
 	for _, en := range lm.Ensures {
 		tags := en.Tags
 		if len(tags) == 0 {
 			tags = lm.Tags
 		}
-		x.oblige(st, "lemma", en.Label, tags, env0.boolOf(en.Expr), en.Src, nil)
+		if lm.Induct == "" {
+			x.obligeBy(en.By, st, "lemma", en.Label, tags, env0.boolOf(en.Expr), en.Src, nil)
+			continue
+		}
+		// induction on lm.Induct: base case 0, step from i >= 0 to i+1
+		iv, ok := names2[lm.Induct]
+		if !ok || iv.Sort != SInt {
+			x.fail(nil, "lemma %s: induction variable %s is not an int var", lm.Name, lm.Induct)
+		}
+		base := env0.child()
+		base.names[lm.Induct] = T("0", SInt)
+		x.obligeBy(en.By, st, "lemma", en.Label+".base", tags, base.boolOf(en.Expr), en.Src, nil)
+		hyp := st.clone()
+		x.assumeAs(hyp, en.Label, And(T("(>= "+iv.S+" 0)", SBool), env0.boolOf(en.Expr)))
+		step := env0.child()
+		step.cur = hyp
+		step.names[lm.Induct] = T("(+ "+iv.S+" 1)", SInt)
+		x.obligeBy(en.By, hyp, "lemma", en.Label+".step", tags, step.boolOf(en.Expr), en.Src, nil)
 	}
-	cov := &Obligation{Name: pk.Name + "." + fu.Name + "#cover[hypotheses_satisfiable]", Kind: "cover", Label: "hypotheses_satisfiable", PC: True, Cond: False, NAssume: len(x.assumes), Src: "the lemma's hypotheses are not contradictory", Unit: fu.Name, IsCover: true}
+	cov := &Obligation{Name: pk.Name + "." + fu.Name + "#cover[hypotheses_satisfiable]", Kind: "cover", Label: "hypotheses_satisfiable", PC: True, Cond: False, NAssume: nHyp, Src: "the lemma's hypotheses are not contradictory", Unit: fu.Name, IsCover: true}
 	x.obls = append(x.obls, cov)
 	res.Obls = x.obls
-	res.Assumes = x.assumes
+	res.Assumes, res.AssumeLabels = x.assumes, x.assumeLabels
 	res.AssumedAt = x.assumedAt
 	return res
+}
+
+// literalZero: the zero value of the sort is a closed literal (cvc5 accepts only values in constant arrays);
+// ghost arrays of other element sorts start unconstrained.
+func literalZero(s *Sort) bool {
+	switch s.Kind {
+	case KInt, KBool:
+		return true
+	case KArray:
+		return s.Elem != nil && literalZero(s.Elem)
+	case KStr, KIface, KStruct, KSlice, KOpaque:
+		return s.Kind != KArray && s.Kind != KStruct && s.Kind != KSlice && s.Kind != KOpaque && s.Kind != KStr
+	}
+	return false
+}
+
+// keepAssume: an obligation with a `by(...)` hint sees every quantifier-free assumption (definitions, path conditions,
+// ground facts) but only those quantified assumptions whose clause label is listed. Dropping assumptions is always sound.
+func (res *UnitResult) keepAssume(o *Obligation, i int) bool {
+	if o.By == nil {
+		return true
+	}
+	a := res.Assumes[i]
+	if !strings.Contains(a, "(forall ") && !strings.Contains(a, "(exists ") {
+		return true
+	}
+	lab, labelled := res.AssumeLabels[i]
+	if !labelled || lab == "" {
+		return true // structural definition or a fact the engine itself derived (range exit, frames, allocation)
+	}
+	for _, l := range o.By {
+		if l == lab {
+			return true
+		}
+	}
+	return false
+}
+
+func (x *Unit) findLemma(name string) *LemmaDecl {
+	if cs, ok := x.P.Contracts[x.FU.Pkg.PkgPath]; ok {
+		for _, lm := range cs.Lemmas {
+			if lm.Name == name {
+				return lm
+			}
+		}
+	}
+	for _, cs := range x.P.Contracts {
+		for _, lm := range cs.Lemmas {
+			if lm.Name == name {
+				return lm
+			}
+		}
+	}
+	return nil
+}
+
+// useLemma instantiates a lemma that is proved as its own unit: the instance of its hypotheses is an obligation here,
+// the instance of its conclusions is then assumed. The lemma speaks about an arbitrary heap, so instantiating it at the
+// current state is sound.
+func (x *Unit) useLemma(st *State, env *specEnv, call SExpr, node ast.Node) {
+	sc, ok := call.(*SCall)
+	if !ok {
+		x.fail(node, "use: expected lemma(args)")
+	}
+	lm := x.findLemma(sc.Fn)
+	if lm == nil {
+		x.fail(node, "use: no lemma %s", sc.Fn)
+	}
+	if len(sc.Args) != len(lm.Vars) {
+		x.fail(node, "use %s: %d arguments for %d lemma variables", lm.Name, len(sc.Args), len(lm.Vars))
+	}
+	le := env.child()
+	le.names = map[string]Term{}
+	le.noLocals = true
+	le.typePkg = lm.Pkg
+	for i, v := range lm.Vars {
+		t := env.eval(sc.Args[i])
+		if so, gt := safeResolve(le, v.Type); so != nil {
+			if so != t.Sort && so.Name != t.Sort.Name {
+				x.fail(node, "use %s: argument %d has sort %s, lemma variable %s has %s", lm.Name, i+1, t.Sort.Name, v.Name, so.Name)
+			}
+			if t.GoT == nil {
+				t.GoT = gt
+			}
+		}
+		le.names[v.Name] = t
+	}
+	for _, r := range lm.Requires {
+		x.oblige(st, "lemma.pre", lm.Name+"."+r.Label, x.tagsOr(lm.Tags), le.boolOf(r.Expr), r.Src, node)
+	}
+	if lm.Induct != "" {
+		x.oblige(st, "lemma.pre", lm.Name+".induction_variable_nonnegative", x.tagsOr(lm.Tags), T("(>= "+le.names[lm.Induct].S+" 0)", SBool), lm.Induct+" >= 0", node)
+	}
+	for _, en := range lm.Ensures {
+		x.assumeAs(st, lm.Name, le.boolOf(en.Expr))
+	}
+	x.assumedAt = append(x.assumedAt, fmt.Sprintf("%s: lemma %s instantiated (proved as unit lemma.%s)", x.FU.Name, lm.Name, lm.Name))
+}
+
+// monitorsAtReturn proves the type-invariant clauses marked each_return in the state of one return statement. Only
+// lock releases may be deferred in such a function, so nothing the invariant talks about changes between the return
+// statement and the exit.
+func (x *Unit) monitorsAtReturn(st *State, where string, node ast.Node) {
+	c := x.FU.Contract
+	if c == nil || st.dead() {
+		return
+	}
+	for _, en := range c.Monitor {
+		if !en.EachReturn {
+			continue
+		}
+		ast.Inspect(x.FU.Body, func(n ast.Node) bool {
+			if _, ok := n.(*ast.FuncLit); ok {
+				return false
+			}
+			if d, ok := n.(*ast.DeferStmt); ok {
+				sel, _ := d.Call.Fun.(*ast.SelectorExpr)
+				if sel == nil || (sel.Sel.Name != "Unlock" && sel.Sel.Name != "RUnlock") {
+					x.fail(d, "each_return monitor in a function that defers something other than a lock release")
+				}
+			}
+			return true
+		})
+		env := x.unitEnv(st, nil)
+		env.paramOld = true
+		cond := env.boolOf(en.Expr)
+		x.obligeBy(en.By, st, "typeinv", en.Label+"."+where, x.tagsOr(en.Tags), cond, en.Src, node)
+		x.assumeAs(st, en.Label, cond)
+	}
 }
